@@ -117,11 +117,12 @@ def run(repo, seed, tier):
     cases = []
     for n in (2, 3, 4, 5):
         hs = hierarchies(n)
+        import random
+        rnd = random.Random(1000 + seed + n)      # seeded random samples (a stride is biased on product-ordered lists)
         if n == 5:
-            step = 12 if tier == 'quick' else 2
-            hs = [h for i, h in enumerate(hs) if (i + seed) % step == 0]
+            hs = rnd.sample(hs, len(hs) // (12 if tier == 'quick' else 2))
         if n == 4 and tier == 'quick':
-            hs = [h for i, h in enumerate(hs) if (i + seed) % 3 == 0]
+            hs = rnd.sample(hs, len(hs) // 3)
         for h in hs:
             for style in (('init', 'setup', 'closure') if n < 5 else ('init',)):
                 cases.append((h, style))
